@@ -399,6 +399,16 @@ func (s *Script) evalWithRoot(stack, data, root any) (any, Expr) {
 	return stack, locs
 }
 
+// sameValue is the == of the script language. Go's == on two interface values
+// panics when both hold the same uncomparable type (two slices, two maps);
+// in a script such values are simply not equal.
+func sameValue(left, right any) bool {
+	if lt := reflect.TypeOf(left); lt != nil && !lt.Comparable() {
+		return false
+	}
+	return left == right
+}
+
 func normalize(v any) any {
 	switch tv := v.(type) {
 	case int:
@@ -467,7 +477,7 @@ func evalStack(sstack []any) []any {
 		case group.code:
 			sstack[i] = left
 		case eq.code:
-			if left == right {
+			if sameValue(left, right) {
 				sstack[i] = true
 			} else {
 				sstack[i] = false
@@ -482,7 +492,7 @@ func evalStack(sstack []any) []any {
 				}
 			}
 		case neq.code:
-			if left == right {
+			if sameValue(left, right) {
 				sstack[i] = false
 			} else {
 				sstack[i] = true
@@ -682,7 +692,7 @@ func evalStack(sstack []any) []any {
 			sstack[i] = false
 			if list, ok := right.([]any); ok {
 				for _, ev := range list {
-					if left == ev {
+					if sameValue(left, ev) {
 						sstack[i] = true
 						break
 					}
